@@ -551,6 +551,16 @@ func init() {
 					c.do(fmt.Sprintf("io.fault %s %s %d %s %s", f, encBytes(d), k, end, encInts(randSizes(r, k, []int{5, 1, 2, 4}[r.intn(4)]))))
 					c.count("offsets")
 				}
+				// the stream fails right behind the last byte (instead of reporting the end of the input), and just
+				// before it: never skipped by the step
+				for _, k := range []int{maxK, maxK - 1, maxK - 2} {
+					if k > 0 && step > 1 {
+						for _, end := range []string{"fault", "wfault"} {
+							c.do(fmt.Sprintf("io.fault %s %s %d %s %s", f, encBytes(d), k, end, encInts(randSizes(r, k, []int{5, 1, 2, 4}[r.intn(4)]))))
+							c.count("offsets")
+						}
+					}
+				}
 			}
 		}
 		// lines of 2^16 .. 2^20 bytes: the reader cannot buffer them and must say so
